@@ -32,9 +32,9 @@ NPTS = 40
 TOL_REL = 1e-5  # relative tolerance of a derivative (defects are O(1))
 DECIDE = 1e-3  # a point is decided only when its whole tolerance is below DECIDE x natural scale
 KM = [1, 2, 3, 4, 5, 1.5, 2.5, 3.7]
-RMINS = [0.0, 1e-8, 1e-3, 0.1, 1.0]
+RMINS = [0.0, 1e-8, 1e-3, 0.1, 1.0, 30.0, 1e3]  # rmin/R from 0 over 5e-10 to 2e4: cancellation against rmin must show
 RULE = (
-    "One case = one transform instance (class, discrete parameters k/m in {1,2,3,4,5,1.5,2.5,3.7}, rmin in {0,1e-8,1e-3,0.1,1}, "
+    "One case = one transform instance (class, discrete parameters k/m in {1,2,3,4,5,1.5,2.5,3.7}, rmin in {0,1e-8,1e-3,0.1,1,30,1e3}, "
     "trim_inf on/off, b explicit or learned; continuous parameters R in [0.05,20], rmax-rmin in [1,1e3], a, b log-uniform drawn "
     "from the case RNG) evaluated on 40 interior points clustered towards both ends (|x| <= 1-1e-3, 0.98 for non-integer k/m; "
     "(0,3b] for b-scaled maps; (0,1/b) for Hyperbolic), as float64 array and as np.float64 scalars. InverseRTransform wraps an "
